@@ -116,6 +116,9 @@ class SingleWorld:
 
 
 def n_modes_arg(cfg):
+    if cfg.get("hair"):
+        # a hair's breadth above the cumulative fraction of the first `hair` modes (XWorldSingle.Hair)
+        return cfg["hairCum"][0] / cfg["hairCum"][1] + 2e-6
     if cfg["frac"][1] != 0:
         return cfg["frac"][0] / cfg["frac"][1]
     return int(cfg["k"])
@@ -182,7 +185,7 @@ def check_single(ck: Checker, scn, sw: SingleWorld, model, tag="EOF", prop_eig="
     tolv = 1e-8 if exact else 1e-6
     ev = np.asarray(model.explained_variance().values, float)
     sv = np.asarray(model.singular_values().values, float)
-    ck.d(len(ev) == k, "C15" if cfg["frac"][1] else prop_eig, "C15_ThresholdMinimal" if cfg["frac"][1] else "C01_Descending",
+    ck.d(len(ev) == k, "C15" if (cfg["frac"][1] or cfg.get("hair")) else prop_eig, "C15_ThresholdMinimal" if (cfg["frac"][1] or cfg.get("hair")) else "C01_Descending",
          f"{tag}: {len(ev)} modes returned, specification predicts {k}")
     if len(ev) != k:
         return
